@@ -655,6 +655,12 @@ def run_js(prop, spec, seed, tier, known, ev):
         job["histories"].append({"id": i, "steps": steps})
     table, byk = native_table(calls_needed, cfg)
     job["native"] = table
+    # (d) many distinct files
+    gcap = r.fork()
+    cap_src = "\n".join("y" * 40 for _ in range(6))
+    ncap = 2500 if tier == 'quick' else 12000
+    job["capacity"] = {"map": gen_orig_map(gcap, cap_src), "n": ncap, "positions": [[1 + gcap.below(6), 1 + gcap.below(40)] for _ in range(8)],
+                       "probes": [0, 1, 7, ncap // 3, ncap // 2, ncap - 2, ncap - 1]}
     with tempfile.NamedTemporaryFile('w', suffix='.json', delete=False, dir=os.path.join(vlib.VERIF, 'replays')) as f:
         json.dump(job, f)
         jobfile = f.name
@@ -712,6 +718,20 @@ def run_js(prop, spec, seed, tier, known, ev):
                     hit('lookup-with-column-0-resolves-to-an-earlier-mapping', dict(req, position=pos), 'node=%s expected=%s' % (got, exp))
                 else:
                     corr.append(('js', dict(req, position=pos), {}, {'model': exp, 'real': got}))
+    # (d) capacity: every probed file answers like the most recently cached one
+    cap = res.get('capacity')
+    if isinstance(cap, dict) and 'error' in cap:
+        hit('source-map-module-threw', {'src': 'capacity scenario'}, cap['error'][:300])
+    elif isinstance(cap, list) and cap:
+        def norm(ans, i):
+            return [dict(a, path=a.get('path', '').replace('/cap/f%d.js' % i, '/cap/f.js')) if isinstance(a, dict) else a for a in ans]
+        ref = norm(cap[-1]['answers'], cap[-1]['i'])
+        for c in cap:
+            checked += 1
+            if norm(c['answers'], c['i']) != ref:
+                hit('cached-map-lost-after-many-rewritten-files', {'src': 'file #%d of %d distinct rewritten files' % (c['i'], job['capacity']['n'])},
+                    'answers=%s most-recent=%s' % (c['answers'][:2], cap[-1]['answers'][:2]))
+                break
     # (b) throw sites
     nframes = 0
     for (i, code, file, calls, boom_line), t in zip(traces, res['traces']):
